@@ -255,7 +255,7 @@ type c28wWorld struct {
 	byPtr map[*HostInfo]*c28wHI
 	seq   int // unique handshake packets / increasing handshake times
 	nRel  int // successful AddRelay calls
-	trace []string
+	trace []c28wEv
 	local map[string]int64
 	// scripted generator
 	rndNext  uint32
@@ -273,7 +273,9 @@ func c28wNew(cfg *c28wCfg) *c28wWorld {
 	static := map[netip.Addr]struct{}{}
 	lh.lighthouses.Store(&lhs)
 	lh.staticList.Store(&static)
-	w.hsm = NewHandshakeManager(w.l, w.hm, lh, &udp.NoopConn{}, defaultHandshakeConfig)
+	// the real constructor with a small retry budget and trigger buffer (keeps the per-replay timer wheel / channel small;
+	// neither is consulted by the operations below except for "counter >= retries" in the timeout branch)
+	w.hsm = NewHandshakeManager(w.l, w.hm, lh, &udp.NoopConn{}, HandshakeConfig{tryInterval: DefaultHandshakeTryInterval, retries: 2, triggerBuffer: 1})
 	w.f = &Interface{handshakeManager: w.hsm, hostMap: w.hm, lightHouse: lh, pki: &PKI{}, l: w.l}
 	w.hsm.f = w.f
 	vrand.SetSource(vrand.Uint32s(func() uint32 {
@@ -433,7 +435,10 @@ func (w *c28wWorld) menu() []c28wEv {
 			m = append(m, c28wEv{Op: 'D', H: t.Ord}, c28wEv{Op: 'P', H: t.Ord})
 			if relayRoom {
 				for ti := range cfg.Targets {
-					for _, v := range cands {
+					for vi, v := range cands {
+						if vi > 0 && !t.Live {
+							break // a tunnel that is not live is refused whatever the generator serves: one attempt is enough
+						}
 						m = append(m, c28wEv{Op: 'Y', H: t.Ord, Set: ti, V: v})
 					}
 				}
@@ -492,7 +497,7 @@ func (w *c28wWorld) status(t *c28wHI) string {
 // step executes one event on the real objects. With check=true the raw maps are snapshotted before and after.
 func (w *c28wWorld) step(e c28wEv, check bool) *c28wOut {
 	o := &c28wOut{Ev: e}
-	w.trace = append(w.trace, w.label(e))
+	w.trace = append(w.trace, e)
 	if e.H >= 0 {
 		o.Target = w.his[e.H]
 		o.TargetWas = w.hm.Indexes[o.Target.hi.localIndexId] == o.Target.hi
@@ -707,10 +712,10 @@ func (w *c28wWorld) step(e c28wEv, check bool) *c28wOut {
 			continue
 		}
 		now := w.hm.Indexes[t.hi.localIndexId] == t.hi
-		if t.Live && !now {
-			t.Removed = true
-			if t != o.Target || (e.Op != 'D' && e.Op != 'X') {
-				o.Vanished = append(o.Vanished, t)
+		if t.Live && !now && (t != o.Target || (e.Op != 'D' && e.Op != 'X')) {
+			o.Vanished = append(o.Vanished, t)
+			if o.AddOK { // eviction by the per-address cap is the only way an add removes a tunnel
+				t.Removed = true
 			}
 		}
 		t.Live = now
@@ -878,9 +883,17 @@ func (w *c28wWorld) describeHIs() []string {
 	return out
 }
 
+func (w *c28wWorld) history() []string {
+	out := make([]string, len(w.trace))
+	for i, e := range w.trace {
+		out[i] = w.label(e)
+	}
+	return out
+}
+
 func (w *c28wWorld) detail(o *c28wOut, extra map[string]any) map[string]any {
 	d := map[string]any{
-		"scenario": w.cfg.Name, "index_space": fmt.Sprintf("1..%d", w.cfg.Space-1), "history": slices.Clone(w.trace),
+		"scenario": w.cfg.Name, "index_space": fmt.Sprintf("1..%d", w.cfg.Space-1), "history": w.history(),
 		"hostinfos": w.describeHIs(), "before_last_op": w.render(o.Pre), "after_last_op": w.render(o.Post),
 	}
 	if o.Err != nil {
@@ -890,6 +903,17 @@ func (w *c28wWorld) detail(o *c28wOut, extra map[string]any) map[string]any {
 		d[k] = v
 	}
 	return d
+}
+
+var c28wSeenSigs sync.Map
+
+// c28wReport hands a violation to the Check; the (costly) detail is only rendered for the first hit of a signature.
+func c28wReport(c *mc.Check, sig string, detail func() map[string]any) {
+	if _, dup := c28wSeenSigs.LoadOrStore(c.ID+"\x00"+sig, true); dup {
+		c.Violation(sig, nil)
+		return
+	}
+	c.Violation(sig, detail())
 }
 
 // c28wChecker evaluates one property on an executed step; it returns true when it reported a violation.
@@ -923,16 +947,17 @@ func c28wExplore(c *mc.Check, cfg *c28wCfg, check c28wChecker, stats *c28wStats)
 		for _, e := range cfg.Seed {
 			w.step(e, false)
 		}
-		w.local = map[string]int64{} // outcomes of the seed are counted once, above
 		bad := false
 		for i, e := range hist {
-			last := i == len(hist)-1
-			o := w.step(e, last)
-			if last {
-				bad = check(c, w, o)
+			if i == len(hist)-1 {
+				clear(w.local) // only the new transition counts: the seed and the prefix were counted when they were new
+				bad = check(c, w, w.step(e, true))
 			} else {
-				w.local = map[string]int64{} // only the new transition counts: prefixes were counted when they were new
+				w.step(e, false)
 			}
+		}
+		if len(hist) == 0 {
+			clear(w.local)
 		}
 		stats.merge(w.local)
 		if bad {
@@ -947,6 +972,82 @@ func c28wExplore(c *mc.Check, cfg *c28wCfg, check c28wChecker, stats *c28wStats)
 			w := &c28wWorld{cfg: cfg}
 			return w.label(e)
 		},
-		Stop: func() bool { return c.OutOfTime() || c.Violations() > 200 },
+		Stop: func() bool { return c.OutOfTime() },
 	})
+}
+
+// c28wScenarios is the box shared by C28 and C29.
+func c28wScenarios(c *mc.Check) []*c28wCfg {
+	th := c.Thorough()
+	collide := &c28wCfg{
+		Name: "collide(index space 1..3)", Space: 4, Cands: []int{0, 2, 3},
+		MaxHI: mc.Pick(c, 3, 4), MaxRelays: mc.Pick(c, 2, 3),
+		Sets:   []c28wSet{c28wSetA, c28wSetAB, c28wSetBC},
+		Starts: []netip.Addr{c28wAddrA, c28wAddrB}, Targets: []netip.Addr{c28wPeerT1},
+		StartDup: th, RecvErr: th, Depth: mc.Pick(c, 5, 7),
+	}
+	// the rejecting branches of CheckAndComplete that come before the collision test (stale / duplicate handshakes)
+	rejects := &c28wCfg{
+		Name: "rejects(stale and duplicate handshakes, index space 1..3)", Space: 4, Cands: []int{0, 2},
+		MaxHI: 3, MaxRelays: 0,
+		Sets:   []c28wSet{c28wSetA, c28wSetAB},
+		Starts: []netip.Addr{c28wAddrA},
+		Variants: true, Depth: mc.Pick(c, 4, 5),
+	}
+	// relay-heavy: a tunnel with a relay has been removed and its indexes are free again
+	relaySeed := &c28wCfg{
+		Name: "collide(after a removed tunnel that owned a relay)", Space: 4, Cands: []int{0, 2, 3},
+		MaxHI: mc.Pick(c, 3, 4), MaxRelays: 3,
+		Sets:   []c28wSet{c28wSetA, c28wSetAB},
+		Starts: []netip.Addr{c28wAddrA}, Targets: []netip.Addr{c28wPeerT1},
+		Seed:  []c28wEv{{Op: 'R', H: -1, Set: 0, V: 0}, {Op: 'Y', H: 0, Set: 0, V: 0}, {Op: 'D', H: 0}},
+		Depth: mc.Pick(c, 4, 6),
+	}
+	// per-address cap: four tunnels on a (two of them also on b) exist already; 16-value index space, no collisions
+	capSets := []c28wSet{c28wSetA, c28wSetAB, c28wSetBC}
+	if th {
+		capSets = append(capSets, c28wSetBA)
+	}
+	capped := &c28wCfg{
+		Name: "cap(index space 1..15)", Space: 16, FreeIdx: true,
+		MaxHI: mc.Pick(c, 7, 8), MaxRelays: mc.Pick(c, 2, 3),
+		Sets: capSets, Starts: []netip.Addr{c28wAddrB}, Targets: []netip.Addr{c28wPeerT1},
+		Seed: []c28wEv{{Op: 'R', H: -1, Set: 1}, {Op: 'R', H: -1, Set: 0}, {Op: 'R', H: -1, Set: 1}, {Op: 'R', H: -1, Set: 0}, {Op: 'Y', H: 0, Set: 0}},
+		Depth: mc.Pick(c, 4, 5),
+	}
+	// cap reached through the address b of two-address tunnels: evictions hit tunnels that are primary elsewhere
+	cappedB := &c28wCfg{
+		Name: "cap(lists of a and b both full, different oldest)", Space: 16, FreeIdx: true,
+		MaxHI: mc.Pick(c, 8, 9), MaxRelays: 1,
+		Sets: []c28wSet{c28wSetAB, c28wSetBC, c28wSetA}, Starts: nil, Targets: []netip.Addr{c28wPeerT1},
+		Seed: []c28wEv{{Op: 'R', H: -1, Set: 2}, {Op: 'R', H: -1, Set: 1}, {Op: 'R', H: -1, Set: 0}, {Op: 'R', H: -1, Set: 0}, {Op: 'R', H: -1, Set: 0}, {Op: 'R', H: -1, Set: 0}},
+		Depth: mc.Pick(c, 3, 4),
+	}
+	return []*c28wCfg{collide, rejects, relaySeed, capped, cappedB}
+}
+
+func c28wDescribe(cfgs []*c28wCfg) []map[string]any {
+	var out []map[string]any
+	for _, g := range cfgs {
+		w := &c28wWorld{cfg: g}
+		var seed, sets []string
+		for _, e := range g.Seed {
+			seed = append(seed, w.label(e))
+		}
+		for _, s := range g.Sets {
+			sets = append(sets, s.Name)
+		}
+		out = append(out, map[string]any{"scenario": g.Name, "index_values": g.Space - 1, "max_hostinfos": g.MaxHI, "max_relays": g.MaxRelays,
+			"peer_address_sets": sets, "depth": g.Depth, "seed": seed})
+	}
+	return out
+}
+
+func c28wKeys(m map[string]int64) []string {
+	var ks []string
+	for k := range m {
+		ks = append(ks, k)
+	}
+	sort.Strings(ks)
+	return ks
 }
